@@ -902,6 +902,8 @@ class Hist:
                 if not kids or n.privroot or (n.parent is None and overlay):
                     return
                 t0 = rng.choice(kids)
+                if t0.name == "" or any(ch.isspace() for ch in t0.name):
+                    return          # (a child with an empty name, made by a VMCOREINFO key like "a..b": the line protocol cannot name it)
                 t = v.resolve(t0.name, base=n) if n.parent is not None else v.resolve(t0.name)
                 if t is None or not s.settable(t):
                     return
